@@ -24,11 +24,11 @@ PROP = dict(
                  "live unit: a replica that has not caught up within 120 s of an idle primary is reported as stuck"],
     tags=[],
     units=[
-        U("seq", ".", "^TestVerifC24_Sequential$", 400, 16000, sq=4, sth=8),
-        U("conc", ".", "^TestVerifC24_Concurrent$", 160, 4000, sq=2, sth=4),
-        U("conc_race", ".", "^TestVerifC24_Concurrent$", 0, 1600, sq=1, sth=4, race=True, tiers=["thorough"]),
-        U("repl", ".", "^TestVerifC24_Replication$", 400, 16000, sq=4, sth=8),
-        U("live", ".", "^TestVerifC24_ReplicationLive$", 60, 1200, sq=2, sth=4),
-        U("http", "./server", "^TestVerifC24_HTTPReplication$", 24, 800, sq=2, sth=4),
+        U("seq", ".", "^TestVerifC24_Sequential$", 400, 8000, sq=4, sth=5),
+        U("conc", ".", "^TestVerifC24_Concurrent$", 160, 2000, sq=2, sth=2),
+        U("conc_race", ".", "^TestVerifC24_Concurrent$", 0, 800, sq=1, sth=2, race=True, tiers=["thorough"]),
+        U("repl", ".", "^TestVerifC24_Replication$", 400, 8000, sq=4, sth=4),
+        U("live", ".", "^TestVerifC24_ReplicationLive$", 60, 600, sq=2, sth=2),
+        U("http", "./server", "^TestVerifC24_HTTPReplication$", 24, 300, sq=2, sth=1),
     ],
 )
